@@ -5,7 +5,8 @@ C50 line-protocol driver.
   conn <recorder 0|1> <conns> <table>  =>  <ids>
 conns = comma list of `key|addr|unknown(0/1)|realMeasurementKey` (node id = position), `-` = none
 table = comma list of `mkey|age;age;…|avg` (ages in ms of the recorded points, `_` = none; avg = the
-        implementation's Snapshot(mkey,10s).Average in ns, `_` = snapshot nil), `-` = empty
+        implementation's Snapshot(mkey,10s).Average in ns, `_` = snapshot nil; optional 4th field `sent;lost` = probes
+        recorded for the key, which the model ignores: only samples inside the window make a key measured), `-` = empty
 -/
 namespace Specter.C50
 open Specter.Util
@@ -25,7 +26,7 @@ def parseTable (t : String) : Option (List Entry) :=
   if t = "-" then some [] else
   (t.splitOn ",").mapM fun (e : String) =>
     match e.splitOn "|" with
-    | [k, ages, avg] =>
+    | k :: ages :: avg :: _probes =>
       let ages? := if ages = "_" then some [] else (ages.splitOn ";").mapM (·.toNat?)
       let avg? : Option (Option Int) := if avg = "_" then some none else (parseInt? avg).map some
       match ages?, avg? with
